@@ -4,7 +4,7 @@ PROPERTY = 'C20'
 LEVEL = 'other'
 ASSUMPTIONS = [
     'base model: fixtures/Simple_Model.xtuml, component Comp (5 classes, user-defined and enumeration types, ooaofooa globals)',
-    'metamorphic oracle on the element tree returned by build_schema; new names are symbolic strings of length 1..3 (they never pass a lexer); edit sites case-split; one edit per run',
+    'metamorphic oracle on the element tree returned by build_schema; new names are symbolic strings of length 1..3 (they never pass a lexer); edit sites case-split; one edit per run (thorough: every edit followed by a rename, scripts of length two)',
     'the attribute ORDER inside an element is not constrained (the statement speaks of one attribute per modelled attribute); enumerators are compared in order',
     'core data types other than boolean/integer/real/string/unique_id, and user types based on them, get no declaration',
     'well-formedness: ET.fromstring(ET.tostring(tree)) and prettify on the realised tree',
@@ -19,5 +19,14 @@ def conditions(tier, seed):
             ('enum', 'check_enum', 'append / swap / rename enumerators (R56 chain)', ['s'], ['op']),
             ('udt', 'check_udt', 'add a user-defined type (3 names) on 4 kinds of base type, re-base one, place it two packages below the component (declared once) or one / two packages deep in a sibling component (not declared)', [], ['bi', 'ni']),
             ('scope', 'check_scope', 'move each class out of the component, into a component nested in it (no change) or into a sibling component / make an attribute derived / unedited baseline vs reviewed expectation + well-formed XML', [], ['ci', 'how'])]
-    return [Cond(n, 'c20_xsd.py', dict(edit=n), func=f, timeout=t, bound=b, symbolic=s, case_split=c,
-                 realised=['model text (PLY, outside the tracer)']) for n, f, b, s, c in spec]
+    out = [Cond(n, 'c20_xsd.py', dict(edit=n), func=f, timeout=t, bound=b, symbolic=s, case_split=c,
+                realised=['model text (PLY, outside the tracer)']) for n, f, b, s, c in spec]
+    if tier == 'thorough':
+        # edit scripts of length two: every first edit followed by the rename of any attribute to a symbolic name
+        for n, f, b, s, c in spec:
+            if n in ('rename',):
+                continue
+            out.append(Cond(n + '_then_rename', 'c20_xsd.py', dict(edit=n + '+rename'), func=f + '2', timeout=t,
+                            bound='%s; THEN any attribute renamed to a symbolic name (edit scripts of length 2)' % b,
+                            symbolic=list(s) + ['s2'], case_split=list(c) + ['si2'], realised=['model text (PLY, outside the tracer)'], twin=False))
+    return out
